@@ -209,8 +209,17 @@ CHECKS["C19"] = dict(
          "bijection between distinct (abstraction, primitive) pairs and [0, output_size) (C19_encode, C19_encode_vector, C19_layout, "
          "C19_start_entries, C19_reduce_is_fold).  The float32/float64 arithmetic of the implementation is NOT proved: each run measures it against "
          "the closed forms (tolerance 1e-4 + 3 float32 ulps of the slice's largest |log-softmax|) and compares layout, non-terminals, membership "
-         "and encodings exactly with the extracted model, for det and U layers over 1-3 grammars sharing abstractions and tensors up to magnitude 500."),
-   note=TB + "Real-number theorems depend on ClassicalDedekindReals.sig_forall_dec, sig_not_dec, FunctionalExtensionality.functional_extensionality_dep and Classical_Prop.classic (standard library reals); the discrete theorems are closed.  Domain of the correspondence: CFG/UCFG.depth_constraint grammars over random abstract DSLs, the four abstractions of abstractions.py plus identity, v in {0.05, 0.2, 0.9}, |x| <= 500 (start entries <= 800); U grammars with one alternative per rule; weights below 1e-280 are only required to be >= 0.  Autograd is not a subject.",
+         "and encodings exactly with the extracted model, for det and U layers over 1-3 grammars sharing abstractions and tensors up to magnitude 500.  "
+         "Unambiguous grammars with SEVERAL alternatives per (non-terminal, symbol) and several start symbols (NN/EncodeU.v, NN/PredictU.v): every "
+         "alternative of P gets pmass * exp(x_P) / sum over all (P', alt') of exp(x_P'), variables and constants share v uniformly over their "
+         "(symbol, alternative) entries (C19_closed_form_alts, C19_alts_nonvacuous); start probabilities are the softmax of the start entries "
+         "(C19_start_softmax); log_probability = start tag + sum of the rule tags of the unique derivation and exp of it is the converted "
+         "probability, 0 outside the language (C19_logprob_multi, C19_exp_logprob_multi, C19_u_defined_on_language, C19_u_outside_zero); encode marks "
+         "exactly the primitive steps of the derivation with one index per primitive shared by its alternatives (C19_u_derivations, C19_u_encode*, "
+         "C19_u_layout, C19_u_start_entries, C19_u_example).  These are driven on hand-built UCFG tables (deterministic bottom-up automata, 1-3 start "
+         "symbols) and on UCFG.from_DFTA / from_DFTA_with_ngrams of sharpened automata, the model running on the rule tables the implementation "
+         "serialised."),
+   note=TB + "Real-number theorems depend on ClassicalDedekindReals.sig_forall_dec, sig_not_dec, FunctionalExtensionality.functional_extensionality_dep and Classical_Prop.classic (standard library reals); the discrete theorems are closed.  Domain of the correspondence: CFG/UCFG.depth_constraint grammars over random abstract DSLs, the four abstractions of abstractions.py plus identity, v in {0.05, 0.2, 0.9}, |x| <= 500 (start entries <= 800); U layers also on hand-built and sharpened-automaton tables with several alternatives and start symbols (sharpening and the DFTA->UCFG conversion themselves belong to C05/C06; a candidate with more than one derivation is skipped; function-typed arguments with the same index have the same type in all grammars of a layer, because Variable.__eq__ ignores the type and the layer would merge their keys); log_probability(p) is specified with the start tag included and variables share v over their derivations (the behaviour after fixes 37df855 and 86dbe25); weights below 1e-280 are only required to be >= 0.  Autograd is not a subject.",
    design="5/C19")
 CHECKS["C16"] = dict(
    technique="Coq proof of an object model of eq/hash/pickle (abstract repaired model plus literal model parametrised by repair set) + extracted-model/implementation correspondence, in-process and across processes with different PYTHONHASHSEED",
